@@ -459,7 +459,20 @@ func keysOf(m map[int]bool) []int {
 // trigger: a point at which the partition may change (period boundary, first cert vote, time).
 func (run *haRun) trigger(why string) {
 	cs := run.cs
-	if run.tail || (cs.Net != "S3" && cs.Net != "mix") {
+	if run.tail {
+		return
+	}
+	if cs.Net == "S6" {
+		// S6: at the first cert vote of a round one node is crowned: only it receives traffic for a while, so it
+		// may commit alone while the others have to carry the value into the next period
+		if why == "first-cert-vote" && run.crown == nil {
+			run.crown = map[int]bool{run.r.Intn(cs.Nodes): true}
+			run.crownTill = run.cl.Now() + time.Duration(2+run.r.Intn(30))*time.Second
+			run.cl.sched("CROWN nodes=%v until=%v", keysOf(run.crown), run.crownTill)
+		}
+		return
+	}
+	if cs.Net != "S3" && cs.Net != "mix" {
 		return
 	}
 	if run.r.Intn(1000) >= cs.FlipPm {
